@@ -849,6 +849,15 @@ def inst(cfgo, cont, n, wh, delay, tail_delay=0):
         i = next(k for k, o in enumerate(prog) if o['op'] == 'deinit'); prog.insert(i, {'op': 'yield', 'n': tail_delay})
     return {'cfg': c['cfg'], 'content': c['content'], 'program': prog}
 
+def with_barriers(insts):
+    """steady-state interference only: every encoder instance finishes svt_av1_enc_init before any of them submits a picture, and none is torn down before all have drained"""
+    out = copy.deepcopy(insts); n = sum(1 for it in out if it.get('kind') != 'dec')
+    for it in out:
+        if it.get('kind') == 'dec': continue
+        p = it['program']; i = next(k for k, o in enumerate(p) if o['op'] == 'init'); p.insert(i + 1, {'op': 'barrier', 'id': 0, 'n': n})
+        j = next(k for k, o in enumerate(p) if o['op'] == 'deinit'); p.insert(j, {'op': 'barrier', 'id': 1, 'n': n})
+    return out
+
 @evaluator('multi17')
 def eval_multi17(cases, variant):
     """cases = [solo_0, solo_1, ..., concurrent]"""
@@ -896,8 +905,8 @@ def check_c17(tier, seed):
             sim = {'policy': 'rand', 'sw': 300, 'seed': 1000 + k}
             conc = {'world': 'multi', 'instances': insts, 'sim': sim, 'machine': {'cores': 4, 'sockets': 1}, 'oracles': {'decode': 0, 'parse': 0, 'seg_events': 0}, '_ndec': 0, '_fixed': 1}
             solos = [{'world': 'enc', 'cfg': it['cfg'], 'content': it['content'], 'program': [o for o in it['program'] if o['op'] != 'yield'], 'sim': {'policy': 'np', 'seed': 1}, 'machine': {'cores': 4, 'sockets': 1}, 'oracles': {'decode': 0, 'parse': 0, 'order': 0}} for it in insts]
-            for fp in (2000, 600):   # the same family at two preemption densities
-                cc = copy.deepcopy(conc); cc['_fine'] = fp; fams.append(copy.deepcopy(solos) + [cc])
+            for key, per in (('_fine', 2000), ('_mem', 3000), ('_mem', 15000)):   # function-entry preemption and memory-access preemption (hot kernels are excluded from the former)
+                cc = copy.deepcopy(conc); cc[key] = per; fams.append(copy.deepcopy(solos) + [cc])
             ck.ev.probe('mix:ee(fixed)'); continue
         mix = ['ee', 'ed', 'dd', 'ee', 'eed', 'edd', 'ee', 'ed', 'ed', 'ee', 'eed', 'ed'][k % 12] if st else 'ee'
         m = len(mix); picks = rng.sample(pool, mix.count('e')); insts = []
@@ -918,16 +927,22 @@ def check_c17(tier, seed):
         fams.append(solos + [conc]); ck.ev.probe('mix:' + ''.join(sorted(mix)))
     # half of the families run on the fine-grained build: forced preemptions at function boundaries let two instances interleave
     # inside code that contains no synchronisation operation at all (e.g. a kernel working on process-global scratch memory)
-    core.build('fine'); fvar = []
+    core.build('fine'); core.build('mem'); fvar = []
     for k, fam in enumerate(fams):
-        fv = 'fine' if (k % 2 == 0 or fam[-1].get('_fixed')) else variant; fvar.append(fv)
+        fv = 'mem' if fam[-1].get('_mem') else ('fine' if (k % 2 == 0 or fam[-1].get('_fixed')) else variant)
+        if fv != 'mem' and not fam[-1].get('_fixed') and k % 4 == 1 and not fam[-1].get('_ndec'): fv = 'mem'   # a quarter of the generated encoder families under memory-access preemption
+        fvar.append(fv)
         if fv == 'fine': fam[-1]['sim'] = dict(fam[-1]['sim'], fine=fam[-1].get('_fine') or rng.choice([2000, 8000, 30000])); ck.ev.fault('fine_preemption')
+        if fv == 'mem': fam[-1]['sim'] = dict(fam[-1]['sim'], mem=fam[-1].get('_mem') or rng.choice([3000, 15000, 60000])); ck.ev.fault('mem_preemption')
+        # the fixed families look at steady-state interference: every instance finishes svt_av1_enc_init before any of them submits a picture
+        # (the generated families keep their seeded staggering, so that one instance's init/teardown also lands inside another's encode)
+        if fam[-1].get('_fixed'): fam[-1]['instances'] = with_barriers(fam[-1]['instances'])
     flat = [(c, fv) for f, fv in zip(fams, fvar) for c in f]
     rs = pmap(lambda cv: run_case(cv[0], cv[1]), flat, variant=variant); i = 0
     for fam, variant in zip(fams, fvar):
         frs = rs[i:i + len(fam)]; i += len(fam); conc, cr = fam[-1], frs[-1]
         ifam = [inline_stream(c) for c in fam]
-        ck.ev.probe('fine_preemptions', (cr.get('sim') or {}).get('fine_preemptions', 0))
+        ck.ev.probe('fine_preemptions', (cr.get('sim') or {}).get('fine_preemptions', 0)); ck.ev.probe('mem_preemptions', (cr.get('sim') or {}).get('mem_preemptions', 0))
         for c, r in zip(fam, frs): ck.ev.add_run(c, r, _default_key(c, r) if c is not conc else ((r.get('sim') or {}).get('trace_hash') if r.get('outcome') == 'ok' else None))
         ck.ev.probe('instances=%d' % (len(fam) - 1))
         for v in relabel(single_violations(conc, cr, variant), 'C17', ('TERM', 'CRASH')):
